@@ -38,10 +38,10 @@ BOUNDARY = (0, 1, 2, 28, 29, 30, 31, 32, 58, 59, 60, 61, 62, 63, 64, 65, 66, 126
 
 def shards(tier):
     if tier == 'quick':
-        sh = e1.std_shards(tier, with_p=True)
+        sh = e1.std_shards(tier, with_p=True, with_hist=True)
         sh += [('WA', kind, k, 1, 0, 1) for k in (31, 65) for kind in ('contranominal', 'ordinal')]
     else:
-        sh = e1.std_shards(tier, with_p=True)
+        sh = e1.std_shards(tier, with_p=True, with_hist=True)
         for k in space.W_SIZES:
             for kind in ('contranominal', 'nominal', 'ordinal'):
                 if kind == 'contranominal':
